@@ -544,7 +544,7 @@ def gen_config(cs, tier='quick', force=None):
     if c['iter_fail']:
         c['faults'].append('iter_fail')
     if ext:
-        kinds = ['short_write', 'stall', 'clock_jump', 'stale_lock', 'kill']
+        kinds = ['short_write', 'stall', 'clock_jump', 'stale_lock', 'kill', 'disk_full']
         en = [k for k in kinds if cs.choose(2, 'f_' + k)]
         if not en:
             en = [kinds[cs.choose(len(kinds), 'f_one')]]
@@ -560,6 +560,9 @@ def gen_config(cs, tier='quick', force=None):
         if 'stale_lock' in en:
             c['stale_lock'] = {'pid': ['dead', 'live'][cs.choose(2, 'sl_pid')],
                                'age': [0.0, 5.0, 119.0, 121.0, 1000.0][cs.choose(5, 'sl_age')]}
+        if 'disk_full' in en:
+            # the n-th append of a worker to a scratch file stores 0, 1/4, 1/2 or 3/4 of its bytes and fails with ENOSPC
+            c['disk_full'] = [1 + cs.choose(2 * c['iterations'] + 2, 'df_at'), cs.choose(4, 'df_keep')]
         if 'kill' in en:
             c['kill_plan'] = [cs.choose(c['W'], 'kill_w'), 1 + cs.choose(est // max(1, c['W']) + 5, 'kill_at')]
     return c
@@ -753,7 +756,7 @@ def run_one(payload):
                       speeds={int(k_): v for k_, v in c['speeds'].items()},
                       stalls={int(k_): v for k_, v in c.get('stalls', {}).items()},
                       clock_jumps=[tuple(x) for x in c.get('clock_jumps', [])],
-                      short_write='short_write' in c['faults'], kill_plan=c.get('kill_plan'),
+                      short_write='short_write' in c['faults'], kill_plan=c.get('kill_plan'), disk_full=c.get('disk_full'),
                       repo_src=REPO_SRC, step_cap=payload.get('step_cap', 300000), capture_copies=True, pid_gap=c.get('pid_gap', 0),
                       host_threads=c.get('host_threads', 1))
         k = K.Kernel(cs, simcfg, sandbox, run_seed=seed)
